@@ -1816,7 +1816,7 @@ def cfg_at(sc, x):
 
 
 def oracle_multi(ctx, case, pv, probes, overdue, faults, errors, ok, stream="multi", split=None,
-                 skip=None, kind="stale-multi", **fields):
+                 skip=None, kind="stale-multi", shadows=None, **fields):
     where = {"stream": stream, "case": case}
     split = split or split_us
     if faults:
@@ -1847,8 +1847,7 @@ def oracle_multi(ctx, case, pv, probes, overdue, faults, errors, ok, stream="mul
             if want is None or want == "out":
                 continue
             if pv[k][j] != want:
-                ch = case.get("change")
-                in_shadow = bool(ch) and ch[1] > 0 and ch[0] <= x < ch[0] + ch[1] * 1000000
+                in_shadow = any(a <= x < b for a, b in (shadows or []))
                 ctx.fail(kind + ("-gap" if in_shadow else ""), where,
                          "at %s %r schedule %d of %d shows %r, its configuration prescribes %r" % (
                              d.isoformat(), tm, k + 1, len(case["scheds"]), pv[k][j], want),
@@ -2021,21 +2020,26 @@ def run_dst(ctx, cases, label="dst"):
         try:
             probes = dst_probes(case)
             pv, probes, overdue, faults, errors, ok = run_multi_real(case, probes)
-            skip, kind = None, "stale-dst"
-            if case["change"] and case["change"][1] < 0:
-                # the wall clock shows one hour twice.  Which reading a schedule should follow there
-                # is not defined, and which of the two instants libc's mktime(tm_isdst=-1) picks for
-                # a time in that hour depends on its previous calls (observed: the same schedule is
-                # armed for 01:30 EDT in one process history and 01:30 EST in another).  Nothing is
-                # demanded of the VALUE during both passes of the repeated hour; spinning, raising,
-                # overdue timers are still looked at, and from the end of the second pass on the
-                # value must be right again
-                w = -case["change"][1] * 1000000
-                c0, c1 = case["change"][0] - w, case["change"][0] + w
-                skip = lambda x: c0 <= x < c1
+            # EVERY change-over of the zone inside the run's window (also when the run was generated
+            # as an "ordinary day" run and happens to contain one), from the zone rules themselves
+            kind = "stale-dst"
+            y0 = time.localtime((case["start"] - OFFSET_US) // 1000000).tm_year
+            y1 = time.localtime((case["until"] - OFFSET_US) // 1000000).tm_year
+            inside = [(c * 1000000 + OFFSET_US, d) for y in range(y0 - 1, y1 + 2) for (c, d) in zone_changes(y)
+                      if case["start"] - 2 * 3600 * 1000000 <= c * 1000000 + OFFSET_US <= case["until"] + 2 * 3600 * 1000000]
+            # a backward change: the wall clock shows one hour twice.  Which reading a schedule should
+            # follow there is not defined, and which of the two instants libc's mktime(tm_isdst=-1)
+            # picks for a time in that hour depends on its previous calls (observed: the same schedule
+            # is armed for 01:30 EDT in one process history and 01:30 EST in another).  Nothing is
+            # demanded of the VALUE during both passes of the repeated hour; spinning, raising, overdue
+            # timers are still looked at, and from the end of the second pass on the value must be
+            # right again
+            back = [(c + d * 1000000, c - d * 1000000) for (c, d) in inside if d < 0]
+            skip = (lambda x: any(a <= x < b for a, b in back)) if back else None
+            fwd = [(c, c + d * 1000000) for (c, d) in inside if d > 0]
             oracle_multi(ctx, case, pv, probes, overdue, faults, errors, ok, stream="dst", split=split_local,
-                         skip=skip, kind=kind, tz=case["tz"],
-                         change=case["change"] and ("forward" if case["change"][1] > 0 else "back"))
+                         skip=skip, kind=kind, tz=case["tz"], shadows=fwd,
+                         change=("forward" if fwd else "") + ("back" if back else "") or None)
             zname = case["tz"].split(",")[0]
             ctx.count(label, (zname, 0 if not case["change"] else (1 if case["change"][1] > 0 else -1),
                               min(sum(len(sc["changes"]) for sc in case["scheds"]), 3)),
